@@ -71,6 +71,7 @@ def replay_graph(v, module, cfg, tag, profile, stack_pars, ev, hid_keys=None):
     for sp, o in results:
         total["runs"] += o["runs"]; total["steps"] += o["steps"]; total["hidden"] += o["hidden_compared"]
         total["drifts"] += o["drifts"]
+        ev["short_reads_refined"] = ev.get("short_reads_refined", 0) + o.get("short_reads_refined", 0)
         if o["drifts"]:
             log(f"MODEL-DRIFT module={module} stack={sp} drifts={o['drifts']} sample={json.dumps(o['drift_samples'][:1])[:500]}")
             ev["drift_samples"] += o["drift_samples"][:2]
@@ -169,7 +170,7 @@ def main(tier):
     cov = dict(states=ev["states"], transitions=ev["transitions"], apalache_lemma=ev.get("apalache"),
                traces_validated_against_impl=ev["runs"] + ev.get("prod_runs", 0), production_constant_events=ev.get("prod_events", 0), samples=ev["samples"][:3] or ["none"],
                edges_exported=ev["edges"], steps_replayed=ev["steps"], hidden_state_steps_compared=ev["hidden"],
-               drift=ev["drifts"], drift_samples=ev["drift_samples"][:3], tlc_runs=ev["tlc"], constants=ev["constants"],
+               short_reads_refined=ev.get("short_reads_refined", 0), drift=ev["drifts"], drift_samples=ev["drift_samples"][:3], tlc_runs=ev["tlc"], constants=ev["constants"],
                exhaustive=(ev["drifts"] == 0 and not v.violations),
                rule="every transition of TLC's complete reachable graph of the layer-reader model is replayed "
                     "on the real layer reader built from /repo (scaled constants)")
